@@ -8,6 +8,9 @@ properties demand, and on = what the code is believed to do), then bound to the 
   replay  TLC -simulate schedules of MC_WriterLifecycleReplay stepped through the real services (scripted random draws)
   trace   free-running recorded executions validated by TLC against Trace_WriterLifecycle
   wd      real-time watchdog scenarios generated from the watchdog part of the spec, run in child processes
+Quirk sets: "q" = believed of the code (QOrphan, QUnknownDsn, QDefaultSync, QHeaderIgnored on; QSplit and QWdFirst RETIRED since the repairs
+e5a8bf5 / 970b5a3), "i" = all off (demanded), "m" = all on (model mutations: TLC must refute PushOnOneNode / WdNoStaleSkipped on them; real code that
+matches only a mutation is reported under the property it breaks).
 Relation to C01/C02: Batcher.tla looks into one worker (rows, columns, retries); this check looks at the workers from
 outside (which worker of which pool of which node, lifecycle, watchdog)."""
 import concurrent.futures as cf
@@ -44,7 +47,7 @@ CFG_COMMON = '''CONSTANTS
   WT = 1
   MaxNow = 0
   WdKinds <- WdKindsOne
-  QWdFirst = TRUE
+  QWdFirst = FALSE
 '''
 
 
@@ -119,13 +122,13 @@ def model_check(tier):
             ('MC_WriterLifecycle.tla', 'MC_WriterLifecycle_live_i.cfg', None),
             ('MC_WriterLifecycle.tla', 'MC_WriterLifecycle_live_q.cfg', 'EveryAcceptedCompletes'),
             ('MC_WriterLifecycleWD.tla', 'MC_WriterLifecycleWD_i.cfg', None),
-            ('MC_WriterLifecycleWD.tla', 'MC_WriterLifecycleWD_q.cfg', None),
-            ('MC_WriterLifecycleWD.tla', 'MC_WriterLifecycleWD_qcex.cfg', 'WdNoStaleSkipped')]
+            # retired quirks as model mutations: TLC must still refute the properties on them (non-vacuity)
+            ('MC_WriterLifecycleWD.tla', 'MC_WriterLifecycleWD_mut.cfg', 'WdNoStaleSkipped'),
+            ('MC_WriterLifecycle.tla', 'MC_WriterLifecycle_route_mut.cfg', 'PushOnOneNode')]
     if tier != 'quick':
         jobs += [('MC_WriterLifecycle.tla', 'MC_WriterLifecycle_t2_i.cfg', None),
                  ('MC_WriterLifecycle.tla', 'MC_WriterLifecycle_life_q.cfg', None),
-                 ('MC_WriterLifecycleWD.tla', 'MC_WriterLifecycleWD_i2.cfg', None),
-                 ('MC_WriterLifecycleWD.tla', 'MC_WriterLifecycleWD_q2.cfg', None)]
+                 ('MC_WriterLifecycleWD.tla', 'MC_WriterLifecycleWD_i2.cfg', None)]
     out = []
     with cf.ThreadPoolExecutor(max_workers=4) as ex:
         futs = [ex.submit(run_tlc, m, c, v, 4, 600 if tier == 'quick' else 3000) for (m, c, v) in jobs]
@@ -139,7 +142,7 @@ def model_check(tier):
 # ------------------------------------------------------------------------------------------------ cases
 def export_cases():
     res = {}
-    for v in ('q', 'i'):
+    for v in ('q', 'i', 'm'):
         r = vlib.tlc(SPECDIR, 'MC_WriterLifecycleCases.tla', 'MC_WriterLifecycleCases_%s.cfg' % v, workers=1, timeout=300)
         try:
             p = os.path.join(r['scratch'], 'cases_%s.json' % v)
@@ -161,8 +164,14 @@ def dsn_class(d):
 
 def run_cases(binp, cases, seed):
     q = sorted(cases['q']['route'], key=ckey)
-    route = [{'id': i, 'd': c['d'], 'h': c['h'], 'nd': c['nd']} for i, c in enumerate(q)]
+
+    def alt_of(c):
+        # draws scripted for the lookups after the first one of a push: the OTHER node (the code must not draw again)
+        return {k: [n for n in NODES if n != c['nd']['spl']][0] for k in c['nd']}
+    route = [{'id': i, 'd': c['d'], 'h': c['h'], 'nd': c['nd'], 'alt': alt_of(c)} for i, c in enumerate(q)]
+    mut = {ckey(c): c for c in cases['m']['route']}
     wdq = sorted(cases['q']['wd'], key=lambda c: json.dumps(sorted(c['stale'])))
+    wdm = {json.dumps(sorted(c['stale'])): c for c in cases['m']['wd']}
     wd = [{'id': i, 'stale': c['stale']} for i, c in enumerate(wdq)]
     sd = vlib.scratch('x03cases')
     try:
@@ -207,6 +216,13 @@ def run_cases(binp, cases, seed):
         if same_i and not (same_q and broken):
             stats['as_demanded'] += 1
             continue
+        if not same_q:
+            # a model mutation (retired quirk switched on again)?  the draws of the later lookups were scripted to `alt`
+            nd_m = dict(c['nd']) if c['d'] in NODES else {k: (c['nd'][k] if k == 'spl' else route[o['id']]['alt'][k]) for k in c['nd']}
+            cm = mut.get((c['d'], c['h'], tuple(sorted(nd_m.items()))))
+            if cm and obs == cm[layer] and cm[layer + 'Broken']:
+                same_q, broken = True, cm[layer + 'Broken']
+                stats['as_mutation'] = stats.get('as_mutation', 0) + 1
         if same_q:
             stats['as_is'] += 1
             for prop in broken:
@@ -249,13 +265,15 @@ def run_cases(binp, cases, seed):
         demanded = [c['demanded']]
         if got == demanded:
             continue
-        if set(got) <= set(c['verdicts']):
+        cm = wdm.get(json.dumps(sorted(c['stale'])))
+        if cm and set(got) <= set(cm['verdicts']):
             kinds = sorted({s[1] for s in c['stale']})
             cls = 'stale-%s-only' % '+'.join(kinds) if 'ts' not in kinds else 'stale-first-kind-on-some-node'
             wseen.setdefault('WdNoStaleSkipped|' + cls, []).append({'stale_services': c['stale'], 'stale_workers': o['stale_workers'],
                                                                      'verdicts_of_60_checks': got, 'demanded': c['demanded'], 'errors': o.get('errors')})
         else:
-            wseen.setdefault('cases|wd|unexplained', []).append({'stale_services': c['stale'], 'observed': o, 'model_as_is': c['verdicts'], 'demanded': c['demanded']})
+            wseen.setdefault('cases|wd|unexplained', []).append({'stale_services': c['stale'], 'observed': o, 'model_as_believed': c['verdicts'],
+                                                                 'model_mutation': cm and cm['verdicts'], 'demanded': c['demanded']})
     for sig, items in sorted(wseen.items()):
         items.sort(key=lambda it: (len(it.get('stale_services', [])), json.dumps(it.get('stale_services'))))
         rp = vlib.save_replay(PID, 'cases_' + sig.replace('|', '_'), {'kind': 'watchdog.Check cases on real services', 'signature': sig, 'cases': items})
